@@ -31,6 +31,9 @@ type Case struct {
 	Entry    string       `json:"entry_point"`
 	Tree     treegen.Tree `json:"tree"`
 	Patterns []string     `json:"exclusion_patterns,omitempty"`
+	// Target (removal entry points only): the call is given this entry of the tree (a link, a file, a sub-directory) instead
+	// of the root of the tree; everything else is then "outside"
+	Target string `json:"target,omitempty"`
 }
 
 var entries = []string{"Rm", "RemoveWithContext", "RemoveWithContextAndExclusionPatterns", "RemoveWithPrivileges", "CleanDir", "CleanDirWithContext",
@@ -41,6 +44,19 @@ func genCase(t *rapid.T) Case {
 	c.Entry = rapid.SampledFrom(entries).Draw(t, "entry")
 	o := treegen.Options{MaxDepth: 5, MaxEntries: 25, Modes: true, Links: c.Backend == "os", OutsideDir: "@OUTSIDE@", OutsideFile: "@OUTSIDE@/f.txt", Small: rapid.Bool().Draw(t, "small-names")}
 	c.Tree = treegen.Gen(t, "tree", o)
+	if (c.Entry == "Rm" || strings.HasPrefix(c.Entry, "Remove")) && len(c.Tree) > 0 && rapid.IntRange(0, 2).Draw(t, "inner-target") == 0 {
+		var linksOf []string
+		for _, nd := range c.Tree {
+			if nd.Kind == "link" {
+				linksOf = append(linksOf, nd.Path)
+			}
+		}
+		if len(linksOf) > 0 && rapid.Bool().Draw(t, "target-a-link") {
+			c.Target = rapid.SampledFrom(linksOf).Draw(t, "target-link")
+		} else {
+			c.Target = c.Tree[rapid.IntRange(0, len(c.Tree)-1).Draw(t, "target")].Path
+		}
+	}
 	if strings.HasSuffix(c.Entry, "ExclusionPatterns") {
 		n := rapid.IntRange(0, 2).Draw(t, "patterns")
 		var names []string
@@ -64,6 +80,9 @@ func genCase(t *rapid.T) Case {
 			} else {
 				c.Patterns = append(c.Patterns, rapid.SampledFrom([]string{"a", "b", "lnk0", "lnk1", "keep", "zz", "x"}).Draw(t, fmt.Sprintf("pat%d", i)))
 			}
+		}
+		if c.Target != "" && strings.TrimSpace(path.Base(c.Target)) != "" && rapid.Bool().Draw(t, "pattern-names-the-target") {
+			c.Patterns = append(c.Patterns, regexp.QuoteMeta(path.Base(c.Target)))
 		}
 	}
 	return c
@@ -105,7 +124,22 @@ func checkCase(t ev.T, test string, c Case) {
 		ev.Inconclusive("tree could not be written: " + err.Error()[strings.LastIndex(err.Error(), ":")+1:])
 		return
 	}
+	// what the call is given: the root of the tree, or one entry of it
+	tpath, trel := troot, "tree"
+	if c.Target != "" {
+		tpath, trel = filepath.Join(troot, filepath.FromSlash(c.Target)), "tree/"+c.Target
+		ev.Class("the call is given an entry inside the tree")
+	}
 	before := box.Snap()
+	if c.Target != "" {
+		if _, ok := before[trel]; !ok {
+			ev.Inconclusive("target not in the written tree")
+			return
+		}
+		if before[trel].Kind == "link" {
+			ev.Class("the call is given a symbolic link")
+		}
+	}
 	links := map[string]bool{} // absolute paths of links in the pre-state
 	for rel, e := range before {
 		if e.Kind == "link" {
@@ -118,13 +152,13 @@ func checkCase(t ev.T, test string, c Case) {
 	ev.Guard(t, prop, test, c, func() {
 		switch c.Entry {
 		case "Rm":
-			err = box.FS.Rm(troot)
+			err = box.FS.Rm(tpath)
 		case "RemoveWithContext":
-			err = box.FS.RemoveWithContext(ctx, troot)
+			err = box.FS.RemoveWithContext(ctx, tpath)
 		case "RemoveWithContextAndExclusionPatterns":
-			err = box.FS.RemoveWithContextAndExclusionPatterns(ctx, troot, c.Patterns...)
+			err = box.FS.RemoveWithContextAndExclusionPatterns(ctx, tpath, c.Patterns...)
 		case "RemoveWithPrivileges":
-			err = box.FS.RemoveWithPrivileges(ctx, troot)
+			err = box.FS.RemoveWithPrivileges(ctx, tpath)
 		case "CleanDir":
 			err = box.FS.CleanDir(troot)
 		case "CleanDirWithContext":
@@ -150,9 +184,12 @@ func checkCase(t ev.T, test string, c Case) {
 	}
 	after := box.Snap()
 	// (1) frame: nothing outside the tree differs
-	for _, d := range treegen.Diff(before, after, treegen.DiffOptions{Except: []string{"tree"}}) {
+	for _, d := range treegen.Diff(before, after, treegen.DiffOptions{Except: []string{trel}}) {
 		if strings.HasPrefix(d, "mtime changed: . ") {
 			continue // the sandbox root lists the tree
+		}
+		if c.Target != "" && strings.HasPrefix(d, "mtime changed: "+path.Dir(trel)+" ") {
+			continue // the directory holding the target lists it
 		}
 		var muts []string
 		for _, op := range box.Backend.Ops() {
@@ -171,10 +208,10 @@ func checkCase(t ev.T, test string, c Case) {
 			if p == "" {
 				continue
 			}
-			if !fsx.Inside(troot, p) {
+			if !fsx.Inside(tpath, p) {
 				ev.Fail(t, prop, test, c, "%s(tree): backend operation outside the tree: %s", c.Entry, op)
 			}
-			for d := filepath.Dir(p); fsx.Inside(troot, d) && d != troot; d = filepath.Dir(d) {
+			for d := filepath.Dir(p); fsx.Inside(tpath, d) && d != tpath; d = filepath.Dir(d) {
 				if links[d] {
 					ev.Fail(t, prop, test, c, "%s(tree): backend operation through the symbolic link %q: %s", c.Entry, d, op)
 				}
@@ -185,7 +222,7 @@ func checkCase(t ev.T, test string, c Case) {
 	if err == nil && len(c.Patterns) == 0 && c.Entry != "GarbageCollect" {
 		left := []string{}
 		for rel := range after {
-			if rel == "tree" || strings.HasPrefix(rel, "tree/") {
+			if rel == trel || strings.HasPrefix(rel, trel+"/") {
 				left = append(left, rel)
 			}
 		}
@@ -207,12 +244,21 @@ func checkCase(t ev.T, test string, c Case) {
 			res = append(res, regexp.MustCompile("^(?:"+p+")$"))
 		}
 		for rel := range before {
-			if !strings.HasPrefix(rel, "tree/") {
+			if !strings.HasPrefix(rel, "tree/") || (c.Target != "" && rel != trel && !strings.HasPrefix(rel, trel+"/")) {
 				continue
 			}
 			protected := false
 			comps := strings.Split(strings.TrimPrefix(rel, "tree/"), "/")
-			for _, comp := range comps {
+			if c.Target != "" {
+				// the names that count are the target's own and those beneath it
+				comps = strings.Split(strings.TrimPrefix(rel, path.Dir(trel)+"/"), "/")
+			}
+			for k, comp := range comps {
+				if c.Target != "" && k == 0 && rel != trel {
+					// the target's own name protects the target itself (the statement speaks of the matching entry and of its
+					// ancestors); what a matching target contains is filtered by the names found beneath it
+					continue
+				}
 				for _, re := range res {
 					if re.MatchString(comp) {
 						protected = true
@@ -223,7 +269,7 @@ func checkCase(t ev.T, test string, c Case) {
 				continue
 			}
 			// the entry and all its ancestors survive
-			for p := rel; p != "tree" && p != "."; p = path.Dir(p) {
+			for p := rel; p != "tree" && p != "." && (c.Target == "" || p == trel || strings.HasPrefix(p, trel+"/")); p = path.Dir(p) {
 				if _, ok := after[p]; !ok {
 					ev.Fail(t, prop, test, c, "%s with exclusion patterns %q removed %q, needed by the protected entry %q (returned %v)", c.Entry, c.Patterns, p, rel, err)
 				}
